@@ -81,9 +81,10 @@ func VerifC17Run(args []string, stdin io.Reader) (stdout, stderr string, code in
 }
 
 // VerifC17YAMLError runs the command's YAML input iterator over text and, when
-// it ends with a yamlParseError, returns the byte index go-yaml reported (the
-// one yamlParseError.Error converts into a position; found the same way) and
-// the error text. ok is false when the input was accepted.
+// it ends with a yamlParseError, returns the character index go-yaml reported
+// (the one yamlParseError.Error converts into a position; found the same way;
+// -1 when the error carries none) and the error text. ok is false when the
+// input was accepted; index is -2 for an error of another kind.
 func VerifC17YAMLError(r io.Reader, fname string) (index int, errText string, ok bool) {
 	iter := newYAMLInputIter(r, fname)
 	defer iter.Close()
@@ -95,10 +96,11 @@ func VerifC17YAMLError(r io.Reader, fname string) (index int, errText string, ok
 		ype, isErr := v.(*yamlParseError)
 		if !isErr {
 			if err, isErr := v.(error); isErr {
-				return -1, err.Error(), true
+				return -2, err.Error(), true
 			}
 			continue
 		}
+		index = -1
 		var pe *yaml.ParserError
 		var te *yaml.TypeError
 		if errors.As(ype.err, &pe) {
